@@ -731,6 +731,12 @@ func (x *runner) runBuffer(bc *bufCtx, groups []*group, e2e bool) {
 					for _, rd := range g.variants {
 						good := x.callIn(d, dv, rd, g, dEnd, exp, b)
 						x.calls[kindNames[rd.kind]]++
+						if good && exp.note != "" {
+							// byte order mark cases that agreed with the reference, per reader kind
+							for _, n := range strings.Split(exp.note, "|") {
+								x.calls[kindNames[rd.kind]+":"+n]++
+							}
+						}
 						if good && b.mixed && exp.mode == mValue && !x.sampled[rd.kind] && x.r.ShardIdx == 0 && len(b.bits) < 200 {
 							x.sampled[rd.kind] = true
 							x.r.Sample(map[string]any{"call": "d." + strings.Replace(g.label, g.base.base, rd.name, 1), "d_endian": endianName(dEnd), "at_bit": b.pos,
